@@ -55,13 +55,7 @@ RB = dict(name='RBTree.Insert/DeleteWithKey', probe='k05', fam=['rb'], quick=150
 RBQ = dict(name='RBTree.lookups+DeleteWithIterator', probe='k05q', fam=['rb'], quick=800, thorough=30000,
            case_start=r'^new$', nontrivial=nt_has('q', 'del'), min_per_shard=100,
            rule='insert/delete (by key and by iterator) interleaved with FindGE/FindLE/Get/Next/Prev queries')
-RPFORK = dict(name='plumbing items under Fork(n): TreeDiff / BlobCache / TicksSinceStart per-branch memory', probe='k08p', fam=['td'],
-             quick=3000, thorough=100000, case_start=r'^cfg ', silent=r'^cfg ', nontrivial=nt_has('fork'), min_per_shard=100,
-             rule='tree-shaped histories of 3-12 commits with 2-4 children per branching commit, real Fork(k-1) of the three items at '
-                  'every branching, children replayed in random order; TreeDiff changes per branch compared with the branch-aware '
-                  'model; Go-side: clones distinct, no wrong-parent refusal, blob bytes exact, ticks clamped along the own branch, '
-                  'registry lists each commit once')
-BC = dict(name='RBTree.CloneDeep/CloneShallow/Erase', probe='k05c', fam=['rb'], quick=800, thorough=30000,
+RBC = dict(name='RBTree.CloneDeep/CloneShallow/Erase', probe='k05c', fam=['rb'], quick=800, thorough=30000,
            case_start=r'^new$', nontrivial=nt_has('deep'), min_per_shard=100,
            rule='deep clones into allocators holding other trees and gaps; Used() accounting and Erase asserted Go-side')
 RBW = dict(name='several trees on shared/cloned allocators (Insert/Delete/Erase/CloneDeep/Clone+CloneShallow)', probe='k06w',
@@ -126,6 +120,12 @@ RUN = dict(name='Pipeline.Run event log', probe='k14', fam=['pl'], quick=3000, t
                 'injected failures (consume error, omitted output, hibernate/boot failure)')
 TD = dict(name='TreeDiff.Consume', probe='k20', fam=['td'], quick=1500, thorough=40000, case_start=r'^cfg ', silent=r'^cfg ',
           nontrivial=nt_has('commit'), rule='histories with file<->dir transitions, submodules, mode flips, filters')
+PFORK = dict(name='plumbing items under Fork(n): TreeDiff / BlobCache / TicksSinceStart per-branch memory', probe='k08p', fam=['td'],
+             quick=3000, thorough=100000, case_start=r'^cfg ', silent=r'^cfg ', nontrivial=nt_has('fork'), min_per_shard=100,
+             rule='tree-shaped histories of 3-12 commits with 2-4 children per branching commit, real Fork(k-1) of the three items at '
+                  'every branching, children replayed in random order; TreeDiff changes per branch compared with the branch-aware '
+                  'model; Go-side: clones distinct, no wrong-parent refusal, blob bytes exact, ticks clamped along the own branch, '
+                  'registry lists each commit once')
 BC = dict(name='BlobCache.Consume', probe='k20b', fam=['bc'], quick=1500, thorough=40000, case_start=r'^new',
           extra=['bc'], nontrivial=nt_has('bc'), rule='tree-diff histories with randomly removed blob objects')
 
@@ -186,6 +186,9 @@ E10 = dict(name='oracle: every subset of the registered leaves, features on/off 
            rule='all 2^n-1 subsets of the leaves registered in the current tree x features on/off: deployed set == closure of the '
                 'providers enabled at deployment time, initialisation succeeds iff no requirement is left without provider, '
                 'resolved order valid')
+K18C = _o('oracle: CouplesAnalysis.MergeResults cell by cell (re-indexed sums, unions of touched files)', 'k18c', 8000, 300000,
+          'pairs of couples results over 5 file names and 6 identities (shared e-mails / names), rows of the unmatched author, '
+          'results as produced by Finalize and as read back from the binary format')
 PLAN4 = dict(name='prepareRunPlan validated (all graphs of 4 commits x all hash orders)', probe='kplan', fam=['pl'],
              quick=0, thorough=0, exhaustive=True, extra=['exh', '4'], shards={'quick': 2, 'thorough': 2},
              nontrivial=lambda ops, impl: ' F:' in ops[0] or ' M:' in ops[0],
@@ -223,7 +226,7 @@ PROPS = {
     'C15': dict(corr=[TS]),
     'C16': dict(corr=[IDG, IDM, E16I, E16M]),
     'C17': dict(corr=[CD, CDC, E01]),
-    'C18': dict(corr=[DEV, IDM, E18]),
+    'C18': dict(corr=[DEV, IDM, K18C, E18]),
     'C19': dict(corr=[TK, E19, PFORK]),
     'C20': dict(corr=[TD, BC, PFORK, E20N, E20P, E20R, E20L, E20S]),
 }
